@@ -821,7 +821,7 @@ func oddNative(rec *fw.Rec, worker int) {
 
 func Run(cfg fw.Config, rec *fw.Rec) {
 	rec.Rule = "cross product {behaviour (60: throw Error/string/object, infinite loop, recursion, loop inside try, return null/undefined/number/string/array/function/NaN/bool/Date/cyclic/function-member, _.out of unserialisable/NaN/cyclic, bindings replaced, deleting permanents, 21 wrong uses of the extended interpreter's _.match / _.cronNext / _.randstr under the standard interpreter map ...)} x {action, guard, guard at a node whose action succeeded} x {5 error settings} x {6 states: empty, nil bindings, permanent, unknown node, unknown node + nil bindings, at error node} x {6 controls: nil, limit -1/0/1/100, breakpoint} x {4 pendings incl. a nil element} x {Step, Walk} x renderings; damaged JSON/YAML documents (45 targeted + random) loaded by encoding/json, jsccast/yaml, yaml.v2 and sio's file-URL loader, compiled, then walked; variable branch targets bound to a number / boolean / null / object / array / empty string / unknown name through a message, the bindings, an action or a guard; messages and bindings full of strings that look like pattern variables (\"?y\" matched by a pattern that uses ?y twice, mutually referring bindings); odd native results ((nil,nil), nil bindings, (nil,err), (exe,err), same map, Execution literals without Events; each through a FuncAction and through an Action type of the host's own, also from states whose permanent bindings are Go containers that == cannot compare: []string, match.Bindings, map[string]string, []map[string]interface{}, arrays, structs with slices); 53 hostile requests to a sio crew (duplicate / malformed timer requests, malformed crew operations, deleting the service machines, odd routing targets, machines without spec or state), alone and in sequence, each followed by a probe that the crew still delivers; 6 scripts that build a value with shared substructure (64 levels, 2^64 values when written out) and 10 scripts that build a value nested 1,000,000 levels deep and emit it, return it (action and guard), hand it to _.match (extended interpreter), or do so inside a sio crew machine, each in a process of its own: the process must survive, the action must fail and the failure be surfaced, the crew must still answer; one child process per batch, every case logged before it runs; oracle: no panic / fatal / hang, and every failure surfaced as the reference step says; non-trivial = case run to a verdict; distinct by case description"
-	rec.Required = []string{"failures_surfaced_step", "walks_checked", "state_nil-bindings", "state_unknown-node-nil-bindings", "state_permanent", "failures_surfaced_nil_bindings", "control_nil", "control_limit-1", "doc_compiled", "doc_compile_error", "doc_load_error", "native_odd_checked", "native_odd_checked_with_an_action_type_of_the_hosts", "native_odd_checked_from_go_typed_permanent_bindings", "failures_surfaced_native", "host_requests_survived", "behaviour_loop", "behaviour_recursion", "behaviour_out-cyclic", "position_guard-after-action", "extended_interpreter_helper_misused", "odd_branch_target_values_survived", "messages_with_variable_lookalikes_survived", "concurrent_props_writers_survived", "deep_value_cases_survived", "deep_value_failures_surfaced", "deep_value_crew_still_alive", "deep_value_boundary_accepted_and_storable", "deep_value_boundary_refused"}
+	rec.Required = []string{"failures_surfaced_step", "walks_checked", "state_nil-bindings", "state_unknown-node-nil-bindings", "state_permanent", "failures_surfaced_nil_bindings", "control_nil", "control_limit-1", "doc_compiled", "doc_compile_error", "doc_load_error", "native_odd_checked", "native_odd_checked_with_an_action_type_of_the_hosts", "native_odd_checked_from_go_typed_permanent_bindings", "failures_surfaced_native", "host_requests_survived", "behaviour_loop", "behaviour_recursion", "behaviour_out-cyclic", "position_guard-after-action", "extended_interpreter_helper_misused", "odd_branch_target_values_survived", "messages_with_variable_lookalikes_survived", "concurrent_props_writers_survived", "deep_value_cases_survived", "deep_value_failures_surfaced", "deep_value_crew_still_alive", "deep_value_boundary_accepted_and_storable", "deep_value_boundary_refused", "stdio_crew_survives_a_state_that_cannot_be_written"}
 	rec.Assume = []string{"native actions do not panic themselves (a Go panic in host code is the host's)", "with absent bindings an ECMAScript program's behaviour is its own; only totality is judged there", "hard watchdog 30-60 s per call; contexts carry deadlines of 40 ms (non-terminating scripts) or 2 s"}
 	bs := behaviours()
 	var cases []crossCase
